@@ -162,6 +162,14 @@ def hasTypeList : Nat → Json → Bool
   | 0, _ => false
   | fuel + 1, s => decide ((getArr s "type").length ≥ 2) || (children s).any (hasTypeList fuel)
 
+/-- some schema has a `default` that is an array with an object (or array) element: the injected default must be a copy
+    all the way down -/
+def hasArrObjDefault : Nat → Json → Bool
+  | 0, _ => false
+  | fuel + 1, s =>
+    (getArr s "default").any (fun e => match e with | .obj _ => true | .arr _ => true | _ => false) ||
+    (children s).any (hasArrObjDefault fuel)
+
 def handle (j : Json) : Json :=
   let doc := getD j "doc" Json.null
   let calls := getArr j "calls"
@@ -189,7 +197,11 @@ def handle (j : Json) : Json :=
   let out := outcome cm
   let kinds := (ops.map (fun o => kindStr o.kind)).foldl (fun acc k => insertSorted k acc) []
   let multi := cm.g ≥ 2
-  let branches := if !multi then [] else
+  -- one goroutine that performs every call of the case at least twice on the same objects: the reuse dimension
+  let reuse := cm.g == 1 && calls.length ≥ 2 && cm.per ≥ 2 * calls.length
+  let branches := if !multi then
+      (if reuse then ["reuse.sequential"] ++ kinds.map (fun k => s!"reuse.kind.{k}") ++
+         (if getBool j "cold" then ["reuse.cold.firstUse"] else []) else []) else
     kinds.map (fun k => s!"kind.{k}") ++ pairs kinds ++
     (if multi && ops.any (fun o => validates o.kind && !o.patterns.isEmpty) then ["pattern.cacheUse"] else []) ++
     (if multi && ops.any (fun o => validates o.kind && o.arrays) then ["unique.lazyInit"] else []) ++
@@ -237,6 +249,13 @@ def handle (j : Json) : Json :=
                                           listLens 6 (getD (getD o "resp" Json.null) "schema" Json.null))
      if lens.any spareCap then ["slices.schemaLists.spareCapacity"] else []) ++
     (if (objKVs (getD doc "schemas" Json.null)).any (fun (_, q) => hasTypeList 6 q) then ["schema.typeList"] else []) ++
+    -- declared response headers (inline or one component response shared by several operations), array-of-objects defaults
+    (let rs := docOps.map (fun o => getD o "resp" Json.null)
+     (if rs.any (fun r => isObj (getD r "headers" Json.null)) then ["doc.responseHeaders"] else []) ++
+     (if rs.any (fun r => isObj (getD (getD r "headers" Json.null) "Content-Type" Json.null)) then ["doc.responseHeaders.contentTypeDeclared"] else []) ++
+     (if (rs.filter (fun r => getBool r "shared")).length ≥ 2 then ["doc.sharedComponentResponse"] else [])) ++
+    (if (objKVs (getD doc "schemas" Json.null)).any (fun (_, q) => hasArrObjDefault 6 q) ||
+        docOps.any (fun o => hasArrObjDefault 6 (getD (getD o "body" Json.null) "schema" Json.null)) then ["defaults.arrayOfObjectsDefault"] else []) ++
     -- the input classes of the two repaired defects (F-C15-1, F-C15-2): kept visible as coverage
     (if ops.any (fun o => validates o.kind && o.defaultsOn && o.sharedDefault) then ["defaults.objectDefault"] else []) ++
     (if ops.any (fun o => o.kind = .gen && o.recursive) then ["typeinfo.recursiveType"] else [])
